@@ -281,8 +281,7 @@ fn replay(dir: &str, tier: &str) -> Value {
                 for rot in rots {
                     let px = &psi[(i + j + rot) % psi.len()];
                     let py = &psj[(i + 2 * j + 1 + rot) % psj.len()];
-                    let modes: &[&str] = if thorough { &["vars", "inline"] } else if (i + j) % 2 == 0 { &["vars"] } else { &["inline"] };
-                    for mode in modes {
+                    for mode in ["vars", "inline"] {
                         check_case(&mut cx, &interp, "contents", px, py, "id", eq, mode, i == nc / 2 && j == nc / 2 + 1);
                     }
                 }
@@ -309,7 +308,7 @@ fn replay(dir: &str, tier: &str) -> Value {
         }
         // ---- suite B: all pairs of producers of small array contents, under the wrappers
         let mut n = 0usize;
-        for (i, ri) in prods.iter().enumerate() {
+        for ri in prods.iter() {
             for (j, rj) in prods.iter().enumerate() {
                 for (a, px) in ri["ps"].as_array().unwrap().iter().enumerate() {
                     for (b, py) in rj["ps"].as_array().unwrap().iter().enumerate() {
@@ -317,10 +316,10 @@ fn replay(dir: &str, tier: &str) -> Value {
                         if n % nw != w {
                             continue;
                         }
-                        let ws: Vec<usize> = if thorough { (0..wrappers.len()).collect() } else { vec![(i + j + a + b) % wrappers.len()] };
+                        let ws: Vec<usize> = (0..wrappers.len()).collect();
                         for wi in ws {
                             let eq = ri["eq"][wi][j].as_i64().unwrap() == 1;
-                            let modes: &[&str] = if thorough { &["vars", "inline"] } else if (a + b) % 2 == 0 { &["vars"] } else { &["inline"] };
+                            let modes: &[&str] = if thorough { &["vars", "inline"] } else if (a + b + wi) % 2 == 0 { &["vars"] } else { &["inline"] };
                             for mode in modes {
                                 check_case(&mut cx, &interp, "producers", px, py, &wrappers[wi], eq, mode, n % 4001 == 7);
                             }
